@@ -172,6 +172,17 @@ func suiteV04(c *vctx) {
 				} else {
 					c.emit("law.C04.api_authenticate_empty_denied "+id, vtf(!got))
 				}
+				// directly after an accepted login: the same user with the password field absent / null /
+				// empty, and a request without the user name — nothing of the earlier request may linger
+				if got && r.Intn(3) == 0 {
+					uq, _ := json.Marshal(u)
+					for _, raw := range []string{`{"username":` + string(uq) + `}`, `{"username":` + string(uq) + `,"password":null}`,
+						`{"username":` + string(uq) + `,"password":""}`, `{"password":"x"}`, `{}`, `{"username":null,"password":null}`} {
+						rec2 := httptest.NewRecorder()
+						a.mux.ServeHTTP(rec2, httptest.NewRequest("POST", "/api/authenticate", strings.NewReader(raw)))
+						c.emit(fmt.Sprintf("law.C04.api_authenticate_empty_denied after-login %s %s", vxs(u), vxs(raw)), vtf(rec2.Code != 200))
+					}
+				}
 			}
 			// LDAP simple bind: the name up to the first '@'
 			{
